@@ -37,7 +37,7 @@ RULE = ('a case = 1–4 real balanced reactions from a 17-reaction library over 
         'before or between the stream operations; reference = the chemicals\' current values); then isothermal and '
         'adiabatic reaction of gas / liquid / multi-phase feeds at 280–450 K (30 % at 298.15 K) with random non-negative '
         'compositions (some deficient → InfeasibleRegion), link histories (mass view read, link_with(copy, TP=False|True), then reactions), read-only Reaction.conversion(stream) queries before reacting, read histories (H/Hnet/C read, reaction at unchanged T and P, another '
-        'memoised property peek=C|S|F_vol|rho|mu|kappa|Cn|V|Cp read, then Hnet or adiabatic_reaction on the same stream) and heat inputs Q = C·ΔT, ΔT ∈ [−40, 120] K; '
+        'memoised property peek=C|S|F_vol|rho|mu|kappa|Cn|V|Cp read, then Hnet or adiabatic_reaction on the same stream) and heat inputs Q = C·ΔT, ΔT ∈ [−40, 120] K, or the calorimetric duty Q = Hf(products) − Hnet(feed) / `Hnet := Hf` (H-setter target exactly 0.0); '
         'non-trivial = a reaction with X ≠ 0 applied to a feed containing its reactant; distinct = distinct op lists')
 ASSUMPTIONS = [
     'H(n, T) (mixture enthalpy) is a parameter: the recorded stream.H values are passed to the model',
@@ -563,7 +563,9 @@ def run_impl(case: Case) -> ImplResult:
             if not all(map(math.isfinite, (H0, Hf0, Hnet0, C0))) or C0 == 0: tags.add('skip:no-H-model'); continue
             n0 = flat_n(s, phases)
             T0s = float(s.T)
-            V = Hnet0 + float(t[2]) * C0
+            # `zero`: the total enthalpy is set to the formation part alone, so the H setter receives exactly 0.0
+            V = Hf0 if t[2] == 'zero' else Hnet0 + float(t[2]) * C0
+            if t[2] == 'zero': tags.add('sethnet:H-target-exactly-zero'); counts['sethnet:target-exactly-zero'] += 1
             P0, ph0 = float(s.P), (tuple(s.phases) if phases else s.phase)
             del _SETREC[:]
             counts['sethnet'] += 1
@@ -688,8 +690,17 @@ def run_impl(case: Case) -> ImplResult:
                     dev = abs(dHnet - heat) / max(abs(heat), 1e-300)
                     tags.add('info:latent-vs-H-model-dev' + ('<1e-3' if dev < 1e-3 else '<1e-2' if dev < 1e-2 else '<1e-1' if dev < 1e-1 else '>=1e-1'))
             else:
-                dT = float(t[3])
-                Q = dT * C0
+                if t[3] == 'cal':
+                    # calorimetric duty: Q = Hf(products) − Hnet(feed), which removes all sensible enthalpy of the products; the
+                    # value handed to the H setter is then exactly 0.0 whenever the subtraction is exact (Sterbenz)
+                    try:
+                        c_ = s.copy(); x['obj'](c_)
+                        Q = float(c_.Hf) - Hnet0
+                    except (tmo.exceptions.InfeasibleRegion,) + PROP_ERRORS:
+                        Q = 0.0
+                    tags.add('adia:calorimetric-Q')
+                else:
+                    Q = float(t[3]) * C0
                 del _SETREC[:]
                 counts['adia'] += 1
                 def target_only(why):
@@ -710,6 +721,7 @@ def run_impl(case: Case) -> ImplResult:
                     if not _SETREC: raise          # not the T-solver / property models: a real failure of the call
                     target_only('adia:solver-raised'); continue
                 target = _SETREC[-1] if _SETREC else None
+                if target == 0.0: tags.add('adia:target-exactly-zero'); counts['adia:target-exactly-zero'] += 1
                 T1 = float(s.T)
                 try:
                     Hgot, Hf1, Hnet1, C1 = float(s.H), float(s.Hf), float(s.Hnet), float(s.C)
@@ -810,12 +822,13 @@ def compare(impl_line, model_line):
 # not), as a share of the operations attempted.  Ceilings ≈ 3× the largest share seen over 12 seeds of the unchanged tree; a
 # regression that makes the T-solver raise or throws the outlet far off must not look like a skip.
 RATE_CEILINGS = {
-    # observed over 9 seeds (ideal, excess-energy and Peng–Robinson packages): ≤ 1.6 %, ≤ 1.9 %, ≤ 1.22 %, 0
-    ('adia', 'adia:solver-raised'): 0.06, ('adia', 'adia:outlet-T-out-of-range'): 0.06,
+    # observed over 8 seeds (three mixture kinds, incl. the H-target-exactly-0 operations, whose outlet is often far from the
+    # inlet): ≤ 2.14 %, ≤ 3.44 %, ≤ 1.3 %, 0
+    ('adia', 'adia:solver-raised'): 0.07, ('adia', 'adia:outlet-T-out-of-range'): 0.10,
     ('adia', 'adia:H-model-irregular-over-interval'): 0.04, ('adia', 'adia:no-H-model-at-outlet'): 0.01,
-    # observed: ≤ 0.11 %, ≤ 0.1 %, ≤ 0.76 %, 0
-    ('sethnet', 'sethnet:solver-raised'): 0.01, ('sethnet', 'sethnet:outlet-T-out-of-range'): 0.01,
-    ('sethnet', 'sethnet:H-model-irregular-over-interval'): 0.025, ('sethnet', 'sethnet:no-H-model-at-outlet'): 0.01,
+    # observed: ≤ 0.69 %, ≤ 1.05 %, ≤ 0.99 %, 0
+    ('sethnet', 'sethnet:solver-raised'): 0.025, ('sethnet', 'sethnet:outlet-T-out-of-range'): 0.035,
+    ('sethnet', 'sethnet:H-model-irregular-over-interval'): 0.03, ('sethnet', 'sethnet:no-H-model-at-outlet'): 0.01,
 }
 RATE_MIN_OPS = 500
 _RUN = collections.Counter()
@@ -1030,14 +1043,15 @@ def gen_case(rng):
         if refmode or rng.random() < 0.5:
             ops.append('iso %s %s%s' % (top, sname, pkk(0.6)))
             if rng.random() < 0.2: ops.append('peek %s %s' % (sname, rng.choice(PEEKS)))
-            if rng.random() < 0.45: ops.append('adia %s %s %s %s%s' % (top, sname, num(rng.choice([0, 0, 10, -20, 50])), sph, pkk(0.3)))
+            if rng.random() < 0.45: ops.append('adia %s %s %s %s%s' % (top, sname, rng.choice(['0', '0', '10', '-20', '50', 'cal']), sph, pkk(0.3)))
         else:
             dT = rng.choice([0, 0, 0, 5, -10, 30, 100]) if rng.random() < 0.7 else round(rng.uniform(-40, 120), 2)
             if rng.random() < 0.06 and not tagging:
                 dT = rng.choice([-250, -180]) if sph == 'g' else rng.choice([300, 600])     # towards the setter's phase-flip fallback
-            ops.append('adia %s %s %s %s%s' % (top, sname, num(dT), sph, pkk(0.3)))
+            if rng.random() < 0.12: dT = 'cal'      # calorimetric heat input: H setter target exactly 0.0
+            ops.append('adia %s %s %s %s%s' % (top, sname, dT if dT == 'cal' else num(dT), sph, pkk(0.3)))
             if rng.random() < 0.3: ops.append('iso %s %s%s' % (top, sname, pkk(0.6)))
-        if rng.random() < 0.15: ops.append('sethnet %s %s%s' % (sname, num(rng.choice([0, 15, -25, 60])), pkk(0.5)))
+        if rng.random() < 0.15: ops.append('sethnet %s %s%s' % (sname, rng.choice(['0', '15', '-25', '60', 'zero']), pkk(0.5)))
         if sidx == 0 and top == 'y0' and rng.random() < 0.25:
             plain = [o.split(' ')[2].split(',') for o in ops if o.startswith('Y y0 ')][0]
             plain = [i for i in plain if i.startswith('r')]
